@@ -32,7 +32,13 @@ def _py(spec):
         return float(spec['v'])
     if t == 'obj':
         return {}
+    if t == 'badstr':
+        return BAD_STRINGS[spec['i'] - 1]
     return 'g%d' % spec['n']
+
+
+# strings that are no colour values (gray-like with trailing garbage, lower case / extended names, digits as a string)
+BAD_STRINGS = ['g5x', 'g1.5', 'g7a', 'g10/RED', 'g', 'red', 'REDX', '12a']
 
 
 def _kwargs(cfg):
@@ -72,7 +78,7 @@ def _make(cfg, cls):
 
 def run(ctx):
     from ak.color import CHText, ColorFmt, ColorBytes
-    ctx.assumptions += ['colour values: None, the 8 names, ints incl. bools, (r,g,b) tuples and lists, "gN" strings; floats and other objects are invalid values; texts contain no ESC character']
+    ctx.assumptions += ['colour values: None, the 8 names, ints incl. bools, (r,g,b) tuples and lists, "gN" strings; floats, other objects and strings that are neither a name nor "gN" ("g5x", "g1.5", "red", "12a") are invalid values; texts contain no ESC character']
     cfgs = []
     for sw in ('fg', 'bg', 'cross'):
         r = ctx.tlc('color/SGRCases.tla',
